@@ -1,6 +1,6 @@
 SPECIFICATION SSpecSim
 CONSTANTS NK = 3
-          TQSizes = {0, 2, 3, 64}
+          TQSizes = {0, 1, 2, 3, 64}
           BloomSizes = {0, 1, 64, 524288}
           D = 1000
           E = 40
